@@ -11,7 +11,14 @@ import shutil
 from engine import (Check, tlc, tlc_ok, validate_traces, pmap, run, tool_env,
                     scratch, MachineryError)
 
-DIRS = {1: 'd1', 2: 'd2/sub', 3: 'top/a/b', 4: ''}
+# directory layouts of the libraries (1..) and of the executable (0): unrelated
+# directories; directories whose names are string prefixes of each other
+# (bin / bin-support / binx, lib / lib64); the build root; nesting
+LAYOUTS = [{0: 'bin', 1: 'd1', 2: 'd2/sub', 3: 'top/a/b', 4: ''},
+           {0: 'bin', 1: 'bin-support', 2: 'bin/inner', 3: 'binx', 4: 'b'},
+           {0: 'pkg/lib', 1: 'pkg/lib64', 2: 'pkg/lib/x', 3: 'pkg', 4: ''},
+           {0: 'a.b', 1: 'a', 2: '', 3: 'a.b.c/d', 4: 'a.b'},
+           {0: '', 1: 'lib', 2: 'lib2', 3: 'lib/2', 4: ''}]
 MODES = [[], ['--disable-shared', '--enable-static'],
          ['--enable-shared', '--enable-static']]
 
@@ -28,9 +35,9 @@ def gen_cfg(n, nseeds, seed):
             % (n, nseeds, seed))
 
 
-def lname(i):
-    d = DIRS.get(i, '')
-    return (d + '/' if d else '') + 'L%d' % i
+def lname(i, layout=0):
+    d = LAYOUTS[layout].get(i, '')
+    return (d + '/' if d else '') + ('L%d' % i if i else 'prog')
 
 
 def build_case(case):
@@ -55,7 +62,8 @@ def build_case(case):
             if case.get('lopt', [False] * n)[i - 1]:
                 lo = ", link_options=['-u', 'g_%d']" % i
             L.append("L%d = %s(%r, ['L%da.c', 'L%db.c'], libs=[%s]%s)" % (
-                i, fn, lname(i), i, i, ', '.join('L%d' % j for j in deps),
+                i, fn, lname(i, case.get('layout', 0)), i, i,
+                ', '.join('L%d' % j for j in deps),
                 lo))
         with open(os.path.join(src, 'main.c'), 'w') as f:
             f.write('#include <stdio.h>\n')
@@ -66,8 +74,9 @@ def build_case(case):
                 terms.append(fnn + '()')
             f.write('int main(void) { printf("%%d\\n", %s); return 0; }\n' %
                     ' + '.join(terms))
-        L.append("executable('bin/prog', ['main.c'], libs=[%s])" % ', '.join(
-            'L%d' % j for j in case['elibs']))
+        exe = lname(0, case.get('layout', 0))
+        L.append("executable(%r, ['main.c'], libs=[%s])" % (exe, ', '.join(
+            'L%d' % j for j in case['elibs'])))
         open(os.path.join(src, 'build.bfg'), 'w').write('\n'.join(L) + '\n')
         env = tool_env()
         bld = os.path.join(root, 'build')
@@ -88,7 +97,7 @@ def build_case(case):
 
         def runprog(b):
             e = {'PATH': '/usr/bin:/bin'}
-            rc, out = run([os.path.join(b, 'bin', 'prog')], cwd='/', env=e)
+            rc, out = run([os.path.join(b, exe)], cwd='/', env=e)
             try:
                 val = int(out.strip())
             except ValueError:
@@ -142,9 +151,21 @@ def main(argv):
         cases.append(dict(f, ok=False, expected=None))
     for i, c in enumerate(cases):
         c['mode'] = MODES[i % len(MODES)]
+        c['layout'] = (i // 2) % len(LAYOUTS)
         if i % 5 == 4:       # dual-use libraries follow the configured mode
             c['kind'] = ['library' if k == 'shared' else k
                          for k in c['kind']]
+    # directed: shared libraries that need each other, in every layout
+    # (run-time search paths between sibling / nested / prefix-named dirs)
+    for lay in range(len(LAYOUTS)):
+        for kind, deps, elibs in (
+                (['shared'] * 3, [[], [1], [1, 2]], [3, 1]),
+                (['shared', 'static', 'shared'], [[], [1], [2]], [3]),
+                (['shared'] * 3, [[], [], []], [2, 3, 1])):
+            cases.append({'kind': kind, 'deps': deps, 'elibs': elibs,
+                          'ecall': ['f', 'f', 'f'], 'lopt': [False] * 3,
+                          'ok': True, 'expected': None, 'mode': [],
+                          'layout': lay})
     res = pmap(build_case, cases, jobs=12)
     traces = [{'id': i + 1, 'events': [
         {k: v for k, v in e.items() if k != 'note'} for e in ev]}
